@@ -324,7 +324,7 @@ def instances(tier):
 BOUNDS = {
     'quick': 'uniform grid: d in {1,2}, symbolic box a<b, symbolic UNBOUNDED integers n>=2 and 0<=i<=n-1, symbolic real points; '
              'Chebyshev grid: n in 2..5 (exact algebraic cosines), all indices, symbolic box and points (monotone arccos atom); '
-             'poi_scale uni/cheb/custom limits d<=2; grid_flat shapes (2,3),(3,2,2) as a finite-domain query; cdf_getter m<=3',
+             'poi_scale uni/cheb/custom limits d<=2; grid_flat shapes (2,3),(3,2,2) as a finite-domain query; cdf_getter m<=3 symbolic samples, integer samples of 2-5 values with a symbolic real query',
     'thorough': 'adds d=3, Chebyshev n up to 7, grid_flat (3,3,3),(2,2,2,2), cdf m=4',
 }
 OUTSIDE = ('IEEE rounding of the maps (exact real arithmetic here); Chebyshev grids with n-1 not in {1..6} (no closed-form '
